@@ -242,6 +242,10 @@ func concPrograms(thorough bool) []*cprog {
 	ev4 := append(append([]SessDef{}, ev3...), SessDef{ID: "unset", PID: "103", Events: full4}, SessDef{ID: "", PID: "104", Events: full4})
 	ps = append(ps, &cprog{Name: "P10 session-less records from two threads || login", Sess: ev4, Logins: l2, Bound: -1,
 		Prefix: []Op{A(0, 0)}, Threads: [][]Op{{A(2, 0), A(2, 3), A(0, 1)}, {A(3, 3), A(2, 1), A(3, 0)}, {L(0)}}, Suffix: probe1})
+	// P12: the reassembler hands events over from two goroutines (the one that pushes records and the one that
+	// evicts on a timer): two consecutive records of one session are delivered by different threads at once
+	ps = append(ps, &cprog{Name: "P12 LOGIN || the session's next record (two delivering threads) || login", Sess: ev3, Logins: l2, Bound: -1,
+		Threads: [][]Op{{A(0, 0)}, {A(0, 1)}, {L(0)}}, Suffix: probe1})
 	// P11: a session that has collected more than a thousand records before its login arrives (a busy session,
 	// a slow sshd pipe): the flush of the hold queue is one step as far as the session's further records go -
 	// a record arriving meanwhile comes after everything held, whatever the flush does with the locks
